@@ -157,9 +157,18 @@ def get_newly_imported_items(
     context = CodemodContext()
     gatherer = GatherImportsVisitor(context)
     source_module.visit(gatherer)
-    source_imports = list(gatherer.symbol_mapping.values())
+    source_imports = set(gatherer.symbol_mapping.values())
+    # symbol_mapping keeps one item per bound name; a name that the source imports from
+    # alternative modules (try: from fast import X / except ImportError: from slow import X)
+    # has several, and all of them are the source's own imports
+    for module_name, names in gatherer.object_mapping.items():
+        source_imports.update(ImportItem(module_name, name) for name in names)
+    for module_name, aliases in gatherer.alias_mapping.items():
+        source_imports.update(
+            ImportItem(module_name, name, alias) for name, alias in aliases
+        )
 
-    return list(set(stub_imports).difference(set(source_imports)))
+    return list(set(stub_imports).difference(source_imports))
 
 
 def apply_stub_using_libcst(
